@@ -438,6 +438,32 @@ impl Exp {
         )
     }
 
+    /// Renders `self` as the left or right operand of the binary operator `parent`, with
+    /// every pair of parentheses that decides the grouping: a lower-precedence operand,
+    /// an equal-precedence operand on the side `parent` does not associate to
+    /// (`a - (b - c)`, `a / (b * c)`), mixed implies/iff operands, and structural logic
+    /// nodes, which print with infix keywords that bind looser than any arithmetic.
+    fn to_string_as_operand(&self, parent: BinOp, is_left: bool) -> String {
+        let needs_parenthesis = match self {
+            Exp::BinOp(op, _, _) => {
+                if op.precedence() != parent.precedence() {
+                    op.precedence() < parent.precedence()
+                } else if parent.is_left_associative() {
+                    !(is_left && op.is_left_associative())
+                } else {
+                    is_left || *op != parent
+                }
+            }
+            Exp::And(_) | Exp::Or(_) | Exp::Xor(_, _) | Exp::Implies(_, _) | Exp::Iff(_, _) => true,
+            _ => false,
+        };
+        if needs_parenthesis {
+            format!("({})", self)
+        } else {
+            self.to_string()
+        }
+    }
+
     /// Converts the expression to a string with proper operator precedence.
     ///
     /// # Arguments
@@ -600,13 +626,14 @@ impl fmt::Display for Exp {
                     .join(", ")
             ),
             Exp::BinOp(operator, lhs, rhs) => {
-                //TODO: add parenthesis when needed
-                let string_lhs = lhs.to_string_with_precedence(*operator);
-                let string_rhs = rhs.to_string_with_precedence(*operator);
+                let string_lhs = lhs.to_string_as_operand(*operator, true);
+                let string_rhs = rhs.to_string_as_operand(*operator, false);
                 format!("{} {} {}", string_lhs, operator, string_rhs)
             }
             Exp::UnOp(op, exp) => {
-                if exp.is_leaf() {
+                // the grammar takes one prefix operator per operand: `--2` does not parse
+                let signed_number = matches!(&**exp, Exp::Number(value) if value.is_sign_negative());
+                if exp.is_leaf() && !signed_number {
                     format!("{}{}", op, exp)
                 } else {
                     format!("{}({})", op, exp)
